@@ -341,13 +341,83 @@ def float_round_agrees(H, W, mh, mw):
     return got == (ex[0], ex[1])
 
 
+def gen_tie(rng, lo=17, hi=200):
+    """TIE / BOUNDARY stream of the size matcher -> (H, W, mh, mw, tag): the image has EXACTLY the aspect ratio of
+    (max_height, max_width) but another size (hratio == wratio != 1, enlarging and reducing, square and not), one
+    maximum 1 px off such a tie (the binding side flips, the loose side gets 1-2 px of padding), or one ratio
+    exactly 1 with the other side larger / smaller."""
+    for _ in range(200):
+        if rng.random() < 0.3:
+            a = b = 1                                          # square frames matched to another square
+            g = rng.randint(lo, hi)
+        else:
+            a, b = rng.randint(1, 9), rng.randint(1, 9)
+            gmin, gmax = -(-lo // min(a, b)), hi // max(a, b)
+            if gmin > gmax:
+                continue
+            g = rng.randint(gmin, gmax)
+        H, W = a * g, b * g
+        t = rng.random()
+        # another multiple m != g of the primitive shape (a, b): ratio m/g from about 1/3 to just under 3,
+        # often next to 1 (g +- 1: the 1 px resize) and the round factors 2 and 1/2
+        cands = [g - 1, g + 1, 2 * g, g // 2 if g % 2 == 0 else g + 2, rng.randint(max(1, g // 3), 3 * g - 1)]
+        m = rng.choice(cands)
+        if m == g or m < 1 or max(a, b) * m > 420 or min(a, b) * m < 8:
+            continue
+        mh, mw = a * m, b * m
+        if t < 0.55:
+            tag = "tie_up" if m > g else "tie_down"
+        elif t < 0.8:
+            tag = "near_tie"
+            if rng.random() < 0.5:
+                mh += rng.choice([-1, 1])
+            else:
+                mw += rng.choice([-1, 1])
+        else:
+            tag = "one_ratio_1"
+            if rng.random() < 0.5:
+                mh = H
+            else:
+                mw = W
+        if min(mh, mw) < 8 or not float_round_agrees(H, W, mh, mw) or py_sizematcher(H, W, mh, mw) is None:
+            continue
+        return H, W, mh, mw, tag
+    raise RuntimeError("gen_tie: no case")
+
+
+P_TIE = 0.3
+
+
+def gen_maxes(rng, c, p_none=0.0):
+    """maxima of one case: the independent stream (gen_max per side, practically never a tie), or -- P_TIE of the
+    cases -- the tie / boundary stream, which also chooses the image size.  -> (H, W)"""
+    if rng.random() < P_TIE:
+        c["H"], c["W"], c["mh"], c["mw"], c["sm_stream"] = gen_tie(rng)
+    else:
+        c["mh"], c["mw"] = gen_max(rng, c["H"]), gen_max(rng, c["W"])
+        c["sm_stream"] = "independent"
+        if rng.random() < p_none:
+            c["mh"], c["mw"] = None, None
+    return c["H"], c["W"]
+
+
+def gen_mx_via(rng, chunks):
+    """how max_height / max_width reach a dataset: the max_hw ARGUMENT (config values None), the CONFIG
+    (data_config.preprocessing.max_height / max_width; the argument then carries other numbers, which the documented
+    precedence ignores), MIXED (height from the config, width from the argument), or config keys ABSENT (the
+    torch datasets read them with .get and fall back to the argument; the chunk functions read the attributes)"""
+    return rng.choice(["arg", "arg", "cfg", "cfg", "mixed"] + ([] if chunks else ["absent"]))
+
+
 def gen_case(rng, kind, thorough):
     H, W = gen_hw(rng)
     gray = rng.random() < 0.4
     c = {"kind": kind, "H": H, "W": W, "gray": gray}
     if kind == "sizematch":
+        H0, W0 = H, W
         while True:
-            c["mh"], c["mw"] = gen_max(rng, H), gen_max(rng, W)
+            c["H"], c["W"] = H0, W0
+            gen_maxes(rng, c)
             if rng.random() < 0.04:                       # degenerate: a fitted side rounds to 0 px
                 c["H"], c["W"], c["mh"], c["mw"] = rng.randint(120, 200), rng.randint(3, 6), rng.randint(8, 14), 31
             if float_round_agrees(c["H"], c["W"], c["mh"], c["mw"]):
@@ -371,10 +441,10 @@ def gen_case(rng, kind, thorough):
         c["cx"], c["cy"] = cx, cy
         c["pts"] = gen_pts(rng, H, W, 1) + gen_near(rng, cx, cy, c["w"], c["h"], 2) + [(cx, cy)]
     elif kind in ("full", "ds_full", "centered", "ds_centered"):
+        H0, W0 = H, W
         while True:
-            c["mh"], c["mw"] = gen_max(rng, H), gen_max(rng, W)
-            if rng.random() < 0.35:
-                c["mh"], c["mw"] = None, None
+            c["H"], c["W"] = H0, W0
+            H, W = gen_maxes(rng, c, p_none=0.35)
             c["s"] = rng.choice(SCALES)
             r = py_sizematcher(H, W, c["mh"], c["mw"])
             if r is None or not float_round_agrees(H, W, c["mh"], c["mw"]):
@@ -403,6 +473,7 @@ def gen_case(rng, kind, thorough):
                     inst[0] = (gen_coord(rng, W), gen_coord(rng, H))
             c["anchor"] = rng.choice([0, None])
             c["chunks"] = rng.random() < 0.25              # also through the np_chunks (npz + PIL round trip) path
+            c["mx_via"] = gen_mx_via(rng, c["chunks"])
             c["conv"] = rng.random() < 0.3                  # channel conversion: gray frames -> is_rgb, RGB frames -> grayscale
             c["aug"] = rng.choice([None, None, "geometric", "intensity"])
             if c["aug"] == "geometric":
@@ -418,7 +489,7 @@ def gen_case(rng, kind, thorough):
                 if rng.random() < 0.4:
                     # enlarging pipelines (factor 2 .. 3) under strong rotations / zoom: the pipeline's half-pixel
                     # offset of up to just under 1 px is multiplied by the matrix (finding F11c lives here)
-                    c["mh"], c["mw"] = None, None
+                    c["mh"], c["mw"], c["sm_stream"] = None, None, "none"
                     c["s"] = rng.choice([F(2), F(5, 2), F(5, 2)])
                     c["H"], c["W"] = H, W = rng.randint(24, 72), rng.randint(24, 72)
                     c["aug_cfg"]["rotation"] = rng.choice([45.0, 90.0, 180.0])
@@ -437,11 +508,27 @@ def gen_case(rng, kind, thorough):
         # labelled frames in video-major / interleaved / shuffled order, indices read in a shuffled order
         c["ds"] = rng.choice(["centered", "centered", "bottomup", "single", "centroid"])
         nv = rng.choice([2, 2, 3])
+        H0, W0 = H, W
         while True:
-            sizes = [(H, W)] + [((H, W) if rng.random() < 0.5 else gen_hw(rng)) for _ in range(nv - 1)]
-            c["mh"], c["mw"] = gen_max(rng, H), gen_max(rng, W)
-            if rng.random() < 0.35:
-                c["mh"], c["mw"] = None, None
+            H, W = H0, W0
+            if rng.random() < P_TIE:
+                # the same scene recorded at several resolutions (2x video in a multi-video project): every video
+                # is a multiple of one primitive shape, the maxima are those of the largest video (what
+                # get_max_height_width computes) or another multiple: EVERY video is a tie, most with ratio != 1
+                a, b = rng.choice([(1, 1), (1, 1), (3, 4), (4, 3), (2, 3), (9, 16), (5, 4), (1, 2)])
+                gs = [rng.randint(-(-17 // min(a, b)), 200 // max(a, b)) for _ in range(nv)]
+                if rng.random() < 0.5:
+                    gs[1] = 2 * gs[0] if 2 * gs[0] * max(a, b) <= 200 else max(gs[0] // 2, -(-17 // min(a, b)))
+                sizes = [(a * g, b * g) for g in gs]
+                m = max(gs) if rng.random() < 0.7 else rng.randint(max(1, min(gs) // 2), 2 * max(gs))
+                H, W = sizes[0]
+                c["mh"], c["mw"], c["sm_stream"] = a * m, b * m, "tie_multi"
+            else:
+                sizes = [(H, W)] + [((H, W) if rng.random() < 0.5 else gen_hw(rng)) for _ in range(nv - 1)]
+                c["mh"], c["mw"], c["sm_stream"] = gen_max(rng, H), gen_max(rng, W), "independent"
+                if rng.random() < 0.35:
+                    c["mh"], c["mw"] = None, None
+            c["H"], c["W"] = H, W
             c["s"] = rng.choice([x for x in SCALES if x != 1] if rng.random() < 0.8 else SCALES)
             ok = True
             for (h_, w_) in sizes:
@@ -456,6 +543,7 @@ def gen_case(rng, kind, thorough):
         c["anchor"] = rng.choice([0, None])
         c["conv"] = rng.random() < 0.3
         c["chunks"] = rng.random() < 0.2
+        c["mx_via"] = gen_mx_via(rng, c["chunks"])
         c["aug"] = None
         room_x, room_y = 255 - max(w_ for _, w_ in sizes), 255 - max(h_ for h_, _ in sizes)
         same_fidx = rng.random() < 0.75
@@ -901,6 +989,15 @@ def run_sizematch(I, c, m, o):
     if isinstance(vr, str):
         o.b("size matcher: " + vr)
         return
+    # oracle (model-independent): the scale returned FOR THE KEYPOINTS is the scale of the resize that was MADE --
+    # each side of the resized content is the image side times eff_scale to within the rounding (1/2 px); an image
+    # that came out at another size was not returned with scale 1 (ties hratio == wratio included)
+    for nm, n, t in (("height", c["H"], vr[0]), ("width", c["W"], vr[1])):
+        if abs(t - n * eff) > 0.5 + 1e-6:
+            o.b(f"size matcher: the {nm} of the image content went {n} -> {t} px but the returned eff_scale is {eff!r} "
+                f"({n} * eff_scale = {n * eff:.3f}): keypoints multiplied by it do not follow the image "
+                f"[stream {c.get('sm_stream')}]")
+            return
     if vr != (th, tw):
         o.d(f"resized content is {vr}, model target {(th, tw)}")
     pts_out = [None if p is None else (float(p[0]) * eff, float(p[1]) * eff) for p in c["pts"]]
@@ -1558,9 +1655,22 @@ def ds_config(I, c, apply_aug):
                         # every key of the PreprocessingConfig schema the datasets read (max_height / max_width:
                         # None = use the max_hw argument, as every docstring says; the code reads both since the
                         # F180 repair, the chunk functions always did)
-                        "preprocessing": {"is_rgb": (not c["gray"]) != bool(c.get("conv")),
-                                          "max_height": None, "max_width": None},
+                        "preprocessing": dict({"is_rgb": (not c["gray"]) != bool(c.get("conv"))}, **mx_routing(c)[0]),
                         "augmentation_config": aug})
+
+
+def mx_routing(c):
+    """-> (config entries, max_hw argument) for the effective maxima (c["mh"], c["mw"]) and the route c["mx_via"]"""
+    via = c.get("mx_via", "arg")
+    mh, mw = c["mh"], c["mw"]
+    decoy = lambda v, d: None if v is None else v + d           # a config value wins over the argument
+    if via == "cfg":
+        return {"max_height": mh, "max_width": mw}, (decoy(mh, 7), decoy(mw, -3 if (mw or 0) > 11 else 5))
+    if via == "mixed":
+        return {"max_height": mh, "max_width": None}, (decoy(mh, -2 if (mh or 0) > 10 else 9), mw)
+    if via == "absent":
+        return {}, (mh, mw)
+    return {"max_height": None, "max_width": None}, (mh, mw)
 
 
 def make_labels(I, c):
@@ -1593,7 +1703,7 @@ def build_ds(I, c, labels, apply_aug, chunks_path=None):
     cfg = ds_config(I, c, apply_aug)
     head = OC.create({"sigma": 1.5, "output_stride": 2, "anchor_part": c.get("anchor")})
     kw = dict(labels=labels, data_config=cfg, max_stride=c["stride"], scale=float(c["s"]),
-              apply_aug=apply_aug, max_hw=(c["mh"], c["mw"]))
+              apply_aug=apply_aug, max_hw=mx_routing(c)[1])
     if chunks_path is not None:
         kw.update(np_chunks=True, np_chunks_path=str(chunks_path))
     if c["ds"] == "bottomup":
@@ -2130,8 +2240,21 @@ def check(run: core.Run) -> int:
     run.obligation("correspondence: Geometry.run (Coq, vm_compute) == sleap_nn.data geometry (/repo) on every case "
                    "(sizes, eff_scale, paddings, bbox corners, keypoints, fitted content maps, selectors)",
                    disagree == 0, f"{disagree} cases disagree")
+    streams, routes = {}, {}
+    for c in cases[n_corpus:]:
+        if "sm_stream" in c:
+            streams.setdefault(c["kind"], {}).setdefault(c["sm_stream"], 0)
+            streams[c["kind"]][c["sm_stream"]] += 1
+        if "mx_via" in c and (c["mh"] is not None or c["mw"] is not None):
+            routes.setdefault(c["kind"], {}).setdefault(c["mx_via"], 0)
+            routes[c["kind"]][c["mx_via"]] += 1
+    n_tie = sum(v for d in streams.values() for k, v in d.items() if k.startswith("tie"))
+    n_tie_ds = sum(v for kd, d in streams.items() if kd.startswith("ds") for k, v in d.items() if k.startswith("tie"))
+    run.obligation("generator: the size matcher's tie stream (max_h/H == max_w/W != 1, up and down) reached the function "
+                   "and the dataset classes", n_tie >= 20 and n_tie_ds >= 5, f"{n_tie} tie cases, {n_tie_ds} through datasets")
     run.coverage.update({
         "input_distribution": dist, "disagreements": disagree, "corpus_cases": n_corpus, "measurements": stats,
+        "size_matcher_streams": streams, "max_hw_routes": routes,
         "rule": "case = (entry point, image size, max_h/max_w, scale, stride, crop size, centroid, keypoints, "
                 "augmentation parameters + seed, gray/RGB); non-trivial = everything except stride-1 padding; "
                 "distinct by full case content",
@@ -2148,7 +2271,7 @@ def check(run: core.Run) -> int:
     run.assumptions += [
         "registration error is measured per axis (Chebyshev) in output pixels; keypoints lie inside the image extent",
         "image sides 17..200, scales k/8 in [1/4,4], crop sides >= 2; float64 size arithmetic agrees with exact "
-        "arithmetic (exact ties that float rounding perturbs are not generated)",
+        "arithmetic (exact .5-px rounding ties that float rounding perturbs are not generated; ties of the two RATIOS are, densely)",
         "apply_sizematcher raising when a fitted side rounds to 0 px is outside the property's domain (modelled as an error)",
         "find_instance_crop_size returning a stride-aligned user crop size unchanged is documented behaviour, not a violation",
     ]
